@@ -23,6 +23,8 @@ PROGS = {
     "P3b": [LAU + LAU, LAU, TAU + LAU],
     "P4": [LAU, LAU, LAU, LAU],
     "P4t": [LAU, LAU, LAU, TAU],
+    "P3c": [LAU + LAU, LAU + TAU, TAU + LAU],
+    "P4b": [LAU + LAU, LAU, TAU + LAU, LAU],
 }
 DEFAULT_ORD = {
     "LockFastCas": ("Acquire", "Relaxed"), "TryLockCas": ("Acquire", "Relaxed"), "SpinLoad": ("Relaxed", "Relaxed"),
@@ -116,14 +118,15 @@ def run(tier):
         ]
     else:
         tours = [("2", 2, "P2", (1, 1)), ("2t", 2, "P2t", (1, 1)), ("3t", 3, "P3t", (1, 1)), ("3", 3, "P3", (1, 1))]
-        configs = [("3b", 3, "P3b", (1, 0)), ("4", 4, "P4", (1, 0)), ("4t", 4, "P4t", (1, 0))]
+        configs = [("3b", 3, "P3b", (1, 0)), ("4", 4, "P4", (1, 0)), ("4t", 4, "P4t", (1, 0)),
+                   ("3c", 3, "P3c", (1, 1), 150), ("4b", 4, "P4b", (1, 0), 150)]
         configs_if_differs = [("2", 2, "P2", (1, 1)), ("3", 3, "P3", (1, 1))]
         specs = [
-            ("dfs2", {"progs": PROGS["P2"], "preempt": 4, "max_runs": 40000, "spur": 1, "eintr": 1, "graph": "2"}),
-            ("dfs2t", {"progs": PROGS["P2t"], "preempt": 4, "max_runs": 20000, "spur": 1, "eintr": 1, "graph": "2t"}),
-            ("dfs3", {"progs": PROGS["P3"], "preempt": 3, "max_runs": 20000, "spur": 1, "eintr": 1, "graph": "3"}),
-            ("dfs3b", {"progs": PROGS["P3b"], "preempt": 2, "max_runs": 20000, "spur": 0, "eintr": 0}),
-            ("dfs4", {"progs": PROGS["P4t"], "preempt": 2, "max_runs": 20000, "spur": 0, "eintr": 0}),
+            ("dfs2", {"progs": PROGS["P2"], "preempt": 4, "max_runs": 15000, "spur": 1, "eintr": 1, "graph": "2"}),
+            ("dfs2t", {"progs": PROGS["P2t"], "preempt": 4, "max_runs": 10000, "spur": 1, "eintr": 1, "graph": "2t"}),
+            ("dfs3", {"progs": PROGS["P3"], "preempt": 3, "max_runs": 10000, "spur": 1, "eintr": 1, "graph": "3"}),
+            ("dfs3b", {"progs": PROGS["P3b"], "preempt": 2, "max_runs": 10000, "spur": 0, "eintr": 0}),
+            ("dfs4", {"progs": PROGS["P4t"], "preempt": 2, "max_runs": 10000, "spur": 0, "eintr": 0}),
             ("rnd4", {"progs": [LAU + LAU, LAU + TAU, TAU + LAU, LAU + LAU], "runs": 3000, "spur": 1, "eintr": 1}),
         ]
     stress = {"threads": 4, "sections": 1500} if tier == "quick" else {"threads": 8, "sections": 10000}
